@@ -735,6 +735,10 @@ spifconf_shell_expand(spif_charptr_t s)
               newbuff[j] = *pbuff;
         }
     }
+    if (j > max) {
+        /* An arm that stores two bytes can end one past the limit; the text is cut there. */
+        j = max;
+    }
     ASSERT_RVAL(j < CONFIG_BUFF, NULL);
     newbuff[j] = 0;
 
